@@ -11,7 +11,7 @@ use std::collections::BTreeSet;
 const TYPES: [&str; 3] = ["AWS::S3::Bucket", "AWS::EC2::Volume", "Custom::Thing"];
 
 fn values() -> Vec<V> {
-    vec![s("s"), s("s t"), i(5), V::Bool(true), s("5"), f(1.5), i(-5), l(vec![i(1), s("a")]), m(vec![("k", i(1))]), V::Null, s(" s"), s("q\"t"), s("b\\"), s("it's"), f(-1.5), s(""), s("true"), s("make\tall"), i(0), s("0"), f(0.0), l(vec![]), V::Map(vec![]), m(vec![("Rules", l(vec![]))]), l(vec![V::Map(vec![]), l(vec![])])]
+    vec![s("s"), s("s t"), i(5), V::Bool(true), s("5"), f(1.5), i(-5), l(vec![i(1), s("a")]), m(vec![("k", i(1))]), V::Null, s(" s"), s("q\"t"), s("b\\"), s("it's"), f(-1.5), s(""), s("true"), s("make\tall"), i(0), s("0"), f(0.0), i(9007199254740993), l(vec![]), V::Map(vec![]), m(vec![("Rules", l(vec![]))]), l(vec![V::Map(vec![]), l(vec![])])]
 }
 
 #[derive(Clone, Debug)]
@@ -215,16 +215,15 @@ pub fn run(tier: &str) -> i32 {
             for (ri, r) in rs.iter().enumerate() {
                 if let (Some(t), Some(props)) = (r.ty, &r.props) {
                     for (pi, (_, v)) in props.iter().enumerate() {
-                        let fresh = match v {
-                            V::Str(_) => s("zz-not-present"),
-                            V::Int(_) => i(424242),
-                            V::Float(_) => f(4242.5),
-                            V::Bool(b) => {
-                                // the other boolean, unless it is present for this type and property
-                                V::Bool(!b)
-                            }
+                        // a far value and, for numbers, both neighbours
+                        let fresh_all: Vec<V> = match v {
+                            V::Str(x) => vec![s("zz-not-present"), s(&format!("{}x", x))],
+                            V::Int(n) => vec![Some(i(424242)), n.checked_add(1).map(i), n.checked_sub(1).map(i)].into_iter().flatten().collect(),
+                            V::Float(x) => vec![f(4242.5), f(x + 0.5)],
+                            V::Bool(b) => vec![V::Bool(!b)],
                             _ => continue,
                         };
+                        for fresh in fresh_all {
                         // skip when the fresh value is present for the same type / property elsewhere
                         let pname = &props[pi].0;
                         let present = rs.iter().any(|o2| o2.ty == Some(t) && o2.props.as_ref().map_or(false, |pp| pp.iter().any(|(n2, v2)| n2 == pname && *v2 == fresh)));
@@ -242,6 +241,7 @@ pub fn run(tier: &str) -> i32 {
                         };
                         if st != Some(St::Fail) {
                             acc.violate(&format!("change-not-detected:{}", class), format!("changing {}.{} from {} to {} leaves rule {} {:?} | rules `{}`", TYPES[t], pname, v.json(), fresh.json(), rule_name(TYPES[t]), st, p.out.trim()), json!({"kind":"lib","rules":p.out,"data":t2.json(),"expected":"FAIL","observed":format!("{:?}", st)}));
+                        }
                         }
                     }
                 }
